@@ -264,11 +264,11 @@ func c13Body(c *ev.Ctx) {
 	// ---- library-level isolation: two threads run the same pure helpers of the response / hashing
 	// path on different values (no server, no proving: cheap, so preemption bound 2)
 	if c.NViolations() == 0 && !c.Expired() {
-		le, ls, lt, done := libIsolation(c, "isolation|library helpers|", []int{0, 1, 2, 3, 4, 5})
+		le, ls, lt, done, lper := pairIsolation(c, "isolation|library helpers|", libScenarios(c, 0, 1, 2, 3, 4, 5), c.Deadline)
 		execs += le
 		states += ls
 		trans += lt
-		per["library helpers x2 bound=2"] = map[string]any{"executions": le, "states": ls, "complete": done}
+		per["library helpers x2"] = lper
 		if !done {
 			allDone = false
 		}
